@@ -2,7 +2,8 @@
    asserts/constraint.go).  Executable model, written function by function from the Go code. No proofs here.
 
    Restrictions of the model (the generator of the driver stays inside them):
-   - regular expressions (name constraints, attribute constraints) are LITERALS over [a-z0-9-]: `^(lit)$` is equality;
+   - regular expressions (name constraints, attribute constraints) are top-level ALTERNATIONS OF LITERALS over
+     [a-z0-9-]: `^(lit1|lit2)$` means the whole string equals one alternative;
    - attribute values are strings, bools, int64, lists and string-keyed maps (no nil, no floats);
    - the classification of a leaf string of an attribute constraint ($MISSING, $SLOT(arg), $PLUG(arg),
      $PLUG_PUBLISHER_ID, $SLOT_PUBLISHER_ID, literal) is done by the driver; everything above the leaves (maps,
@@ -57,6 +58,16 @@ Fixpoint split_dots_aux (cur : bytes) (s : bytes) : list bytes :=
   end.
 Definition split_dots (s : bytes) : list bytes := split_dots_aux [] s.
 
+(* A regexp restricted to a TOP-LEVEL ALTERNATION OF LITERALS lit1|lit2|...: the code compiles `^(` + s + `)$`, so the
+   WHOLE string must equal one of the alternatives. split_bar splits on `|` keeping empty alternatives. *)
+Fixpoint split_bar_aux (cur : bytes) (s : bytes) : list bytes :=
+  match s with
+  | [] => [rev cur]
+  | c :: r => if c =? 124 then rev cur :: split_bar_aux [] r else split_bar_aux (c :: cur) r
+  end.
+Definition split_bar (s : bytes) : list bytes := split_bar_aux [] s.
+Definition alt_lit_match (pattern x : bytes) : bool := existsb (beq x) (split_bar pattern).
+
 Fixpoint lookup_path (comps : list bytes) (v : aval) : option aval :=
   match comps with
   | [] => Some v
@@ -80,7 +91,7 @@ Definition lookup_attr (a : attrs) (path : bytes) : option aval :=
 Inductive amatch : Type :=
 | MMap (ms : list (bytes * amatch))       (* mapAttrMatcher *)
 | MAlt (alts : list amatch)               (* altAttrMatcher *)
-| MLit (s : bytes)                        (* regexpAttrMatcher restricted to a literal *)
+| MLit (s : bytes)                        (* regexpAttrMatcher restricted to an alternation of literals *)
 | MMissing                                (* missingAttrMatcher *)
 | MEval (slot : bool) (arg : bytes)       (* evalAttrMatcher $SLOT(arg) / $PLUG(arg) *)
 | MRef (slot : bool)                      (* refAttrMatcher $SLOT_PUBLISHER_ID / $PLUG_PUBLISHER_ID *)
@@ -118,9 +129,9 @@ Fixpoint match_v (ctx : option mctx) (m : amatch) {struct m} : aval -> bool :=
   | MLit s =>
       fix go (v : aval) : bool :=
         match v with
-        | VStr x => beq x s
-        | VBool b => beq (bool_str b) s
-        | VInt z => beq (zdec z) s
+        | VStr x => alt_lit_match s x
+        | VBool b => alt_lit_match s (bool_str b)
+        | VInt z => alt_lit_match s (zdec z)
         | VList l => forallb go l
         | VMap _ => false
         end
@@ -326,20 +337,41 @@ Definition check_device_scope (e : env) (c : option (list bytes * list bytes * l
       end
   end.
 
-(* compileNameMatcher + NameConstraints.Check: an entry starting with $ is special, anything else a (literal) regexp *)
+(* compileNameMatcher + NameConstraints.Check: an entry starting with $ is special, anything else a regexp (an
+   alternation of literals) that must match the whole name *)
 Definition name_match (iface name : bytes) (entry : bytes) : bool :=
   match entry with
   | 36 :: _ => if beq entry (bs "$INTERFACE"%string) then negb (is_nil_b iface) && beq iface name else false
-  | _ => beq entry name
+  | _ => alt_lit_match entry name
   end.
-Definition check_names (c : option (list bytes)) (iface name : bytes) : bool :=
-  match c with None => true | Some l => existsb (name_match iface name) l end.
+
+(* The same, written independently for the monitor: one left-to-right scan of the entry that compares the name with the
+   current alternative; st = Some r: the current alternative agrees so far and r of the name is left; None: it failed. *)
+Fixpoint seg_scan (entry : bytes) (st : option bytes) (name : bytes) : bool :=
+  match entry with
+  | [] => match st with Some [] => true | _ => false end
+  | c :: e =>
+      if c =? 124 then match st with Some [] => true | _ => seg_scan e (Some name) name end
+      else match st with
+           | Some (x :: r) => if x =? c then seg_scan e (Some r) name else seg_scan e None name
+           | _ => seg_scan e None name
+           end
+  end.
+Definition name_match_ref (iface name : bytes) (entry : bytes) : bool :=
+  match entry with
+  | 36 :: _ => beq entry (bs "$INTERFACE"%string) && negb (is_nil_b iface) && beq iface name
+  | _ => seg_scan entry (Some name) name
+  end.
+
+Definition check_names_gen (nm : bytes -> bytes -> bytes -> bool) (c : option (list bytes)) (iface name : bytes) : bool :=
+  match c with None => true | Some l => existsb (nm iface name) l end.
+Definition check_names := check_names_gen name_match.
 
 (* checkPlugConnectionConstraints1 *)
-Definition check_plug_conn1 (c : conn) (a : alt) : bool :=
+Definition check_plug_conn1_gen (nm : bytes -> bytes -> bytes -> bool) (c : conn) (a : alt) : bool :=
   let p := k_plug c in let s := k_slot c in let ctx := Some (conn_ctx c) in
-  check_names (a_plug_names a) (f_iface p) (f_name p)
-  && check_names (a_slot_names a) (f_iface s) (f_name s)
+  check_names_gen nm (a_plug_names a) (f_iface p) (f_name p)
+  && check_names_gen nm (a_slot_names a) (f_iface s) (f_name s)
   && attrs_check ctx (a_plug_attrs a) (side_attrs p)
   && attrs_check ctx (a_slot_attrs a) (side_attrs s)
   && check_snap_type (f_type s) (a_slot_snap_types a)
@@ -349,12 +381,13 @@ Definition check_plug_conn1 (c : conn) (a : alt) : bool :=
   && check_on_classic (k_env c) (a_on_classic a)
   && check_on_core_desktop (k_env c) (a_on_core_desktop a)
   && check_device_scope (k_env c) (a_device a).
+Definition check_plug_conn1 := check_plug_conn1_gen name_match.
 
 (* checkSlotConnectionConstraints1 *)
-Definition check_slot_conn1 (c : conn) (a : alt) : bool :=
+Definition check_slot_conn1_gen (nm : bytes -> bytes -> bytes -> bool) (c : conn) (a : alt) : bool :=
   let p := k_plug c in let s := k_slot c in let ctx := Some (conn_ctx c) in
-  check_names (a_plug_names a) (f_iface p) (f_name p)
-  && check_names (a_slot_names a) (f_iface s) (f_name s)
+  check_names_gen nm (a_plug_names a) (f_iface p) (f_name p)
+  && check_names_gen nm (a_slot_names a) (f_iface s) (f_name s)
   && attrs_check ctx (a_plug_attrs a) (side_attrs p)
   && attrs_check ctx (a_slot_attrs a) (side_attrs s)
   && check_snap_type (f_type s) (a_slot_snap_types a)
@@ -365,6 +398,7 @@ Definition check_slot_conn1 (c : conn) (a : alt) : bool :=
   && check_on_classic (k_env c) (a_on_classic a)
   && check_on_core_desktop (k_env c) (a_on_core_desktop a)
   && check_device_scope (k_env c) (a_device a).
+Definition check_slot_conn1 := check_slot_conn1_gen name_match.
 
 (* check*AltConstraints: OR over the alternatives; with NO alternative the Go loop returns (nil, nil), i.e. no error *)
 Definition alts_ok (f : alt -> bool) (l : list alt) : bool :=
@@ -423,22 +457,24 @@ Record inst := mkInst { i_env : env; i_type : bytes; i_slots : list side; i_plug
                         i_decl : option decl; i_base : decl }.
 
 (* checkSlotInstallationConstraints1 / checkPlugInstallationConstraints1 (attributes are checked without context) *)
-Definition check_slot_inst1 (i : inst) (s : side) (a : alt) : bool :=
-  check_names (a_slot_names a) (f_iface s) (f_name s)
+Definition check_slot_inst1_gen (nm : bytes -> bytes -> bytes -> bool) (i : inst) (s : side) (a : alt) : bool :=
+  check_names_gen nm (a_slot_names a) (f_iface s) (f_name s)
   && attrs_check None (a_slot_attrs a) (f_static s, [])
   && check_snap_type (i_type i) (a_slot_snap_types a)
   && check_id (od_snap_id (i_decl i)) (a_slot_snap_ids a) no_special
   && check_on_classic (i_env i) (a_on_classic a)
   && check_on_core_desktop (i_env i) (a_on_core_desktop a)
   && check_device_scope (i_env i) (a_device a).
-Definition check_plug_inst1 (i : inst) (p : side) (a : alt) : bool :=
-  check_names (a_plug_names a) (f_iface p) (f_name p)
+Definition check_slot_inst1 := check_slot_inst1_gen name_match.
+Definition check_plug_inst1_gen (nm : bytes -> bytes -> bytes -> bool) (i : inst) (p : side) (a : alt) : bool :=
+  check_names_gen nm (a_plug_names a) (f_iface p) (f_name p)
   && attrs_check None (a_plug_attrs a) (f_static p, [])
   && check_snap_type (i_type i) (a_plug_snap_types a)
   && check_id (od_snap_id (i_decl i)) (a_plug_snap_ids a) no_special
   && check_on_classic (i_env i) (a_on_classic a)
   && check_on_core_desktop (i_env i) (a_on_core_desktop a)
   && check_device_scope (i_env i) (a_device a).
+Definition check_plug_inst1 := check_plug_inst1_gen name_match.
 
 (* InstallCandidate.checkSlotRule / checkPlugRule: true = installation allowed *)
 Definition eval_inst (f : alt -> bool) (deny allow : list alt) : bool :=
@@ -475,27 +511,32 @@ Definition inst_valid (i : inst) : bool :=
 (* ------------------------------------------------------------------ the property, stated directly (reference evaluator) *)
 (* a connection is allowed iff the interfaces agree and either no level has a rule for the interface, or in the rule
    of the first level that has one no deny alternative matches and some allow alternative matches *)
-Definition spec_connect_allowed (auto : bool) (c : conn) : bool :=
+Definition spec_connect_allowed_gen (nm : bytes -> bytes -> bytes -> bool) (auto : bool) (c : conn) : bool :=
   let iface := f_iface (k_plug c) in
   beq (f_iface (k_slot c)) iface &&
   match first_rule (k_decls c) iface with
   | None => true
   | Some (plugside, r) =>
-      let m := if plugside then check_plug_conn1 c else check_slot_conn1 c in
+      let m := if plugside then check_plug_conn1_gen nm c else check_slot_conn1_gen nm c in
       negb (existsb m (rule_deny auto r)) && existsb m (rule_allow auto r)
   end.
 
-Definition spec_install_allowed (i : inst) : bool :=
+Definition spec_install_allowed_gen (nm : bytes -> bytes -> bytes -> bool) (i : inst) : bool :=
   forallb (fun s => match inst_slot_rule i (f_iface s) with
                     | None => true
-                    | Some r => negb (existsb (check_slot_inst1 i s) (r_deny_inst r))
-                                && existsb (check_slot_inst1 i s) (r_allow_inst r)
+                    | Some r => negb (existsb (check_slot_inst1_gen nm i s) (r_deny_inst r))
+                                && existsb (check_slot_inst1_gen nm i s) (r_allow_inst r)
                     end) (i_slots i)
   && forallb (fun p => match inst_plug_rule i (f_iface p) with
                        | None => true
-                       | Some r => negb (existsb (check_plug_inst1 i p) (r_deny_inst r))
-                                   && existsb (check_plug_inst1 i p) (r_allow_inst r)
+                       | Some r => negb (existsb (check_plug_inst1_gen nm i p) (r_deny_inst r))
+                                   && existsb (check_plug_inst1_gen nm i p) (r_allow_inst r)
                        end) (i_plugs i).
+Definition spec_connect_allowed := spec_connect_allowed_gen name_match.
+Definition spec_install_allowed := spec_install_allowed_gen name_match.
+(* the reference evaluator of the monitor uses the independently written whole-name matcher *)
+Definition ref_connect_allowed := spec_connect_allowed_gen name_match_ref.
+Definition ref_install_allowed := spec_install_allowed_gen name_match_ref.
 
 (* ------------------------------------------------------------------ correspondence / monitor interface *)
 Definition verdict_eqb (a b : verdict) : bool :=
@@ -646,9 +687,9 @@ Definition monitor_fail (x : case) : bool :=
       | VPanic => true
       | _ =>
           negb guard
-          || negb (Bool.eqb (is_allow obs) (spec_connect_allowed auto c))
-          || negb (Bool.eqb (is_allow obsd) (spec_connect_allowed auto (conn_deny_variant auto c xp xs)))
-          || negb (Bool.eqb (is_allow obsl) (spec_connect_allowed auto (conn_low_variant c low)))
+          || negb (Bool.eqb (is_allow obs) (ref_connect_allowed auto c))
+          || negb (Bool.eqb (is_allow obsd) (ref_connect_allowed auto (conn_deny_variant auto c xp xs)))
+          || negb (Bool.eqb (is_allow obsl) (ref_connect_allowed auto (conn_low_variant c low)))
           || (is_refuse obs && is_allow obsd)
           || match obsd with VPanic => true | _ => false end
           || negb (conn_verdict_eqb auto obs obsl)
@@ -659,9 +700,9 @@ Definition monitor_fail (x : case) : bool :=
       | VPanic => true
       | _ =>
           negb guard
-          || negb (Bool.eqb (is_allow obs) (spec_install_allowed i))
-          || negb (Bool.eqb (is_allow obsd) (spec_install_allowed (inst_deny_variant i xp xs)))
-          || negb (Bool.eqb (is_allow obsl) (spec_install_allowed (inst_low_variant i low)))
+          || negb (Bool.eqb (is_allow obs) (ref_install_allowed i))
+          || negb (Bool.eqb (is_allow obsd) (ref_install_allowed (inst_deny_variant i xp xs)))
+          || negb (Bool.eqb (is_allow obsl) (ref_install_allowed (inst_low_variant i low)))
           || (is_refuse obs && is_allow obsd)
           || match obsd with VPanic => true | _ => false end
           || negb (verdict_eqb obs obsl)
